@@ -26,6 +26,7 @@ Decide(D, src, l, p, e) ==
       v     == D.vname[l]
       emitu == [act |-> "emit", name |-> v, end |-> e]
       emitv == [act |-> "emit", name |-> v \o "(" \o Num(len) \o ")", end |-> e]
+      emitw(k2) == [act |-> "emit", name |-> v \o "(" \o Num(len + k2) \o ")", end |-> e]
       alt   == [act |-> "emit", name |-> "Alt", end |-> e]
       skip  == [act |-> "skip", name |-> "", end |-> e]
       errd  == [act |-> "err", name |-> ErrDefault(D), end |-> e]
@@ -38,6 +39,12 @@ Decide(D, src, l, p, e) ==
        [] k = "unit_filter"   -> IF sel % 2 = 0 THEN emitu ELSE skip
        [] k = "val_t"         -> emitv
        [] k = "val_opt"       -> IF sel % 2 = 0 THEN emitv ELSE errd
+       \* inline closures whose body starts with a group and goes on after it: the value is that of the WHOLE body
+       [] k = "val_t_paren"   -> emitw(100)          \* |lex| (val_t(lex)) + 100
+       [] k = "val_t_brace"   -> emitw(200)          \* |lex| { val_t(lex) } + 200
+       [] k = "val_t_index"   -> emitw(300)          \* |lex| [val_t(lex), 7][0] + 300
+       [] k = "unit_bool_and" -> errd                \* |lex| (unit_bool(lex)) && false
+       [] k = "unit_bool_or"  -> emitu               \* |lex| { unit_bool(lex) } || true
        [] k = "val_res"       -> IF sel < 2 THEN emitv ELSE errc
        [] k = "val_filter"    -> IF sel % 2 = 0 THEN emitv ELSE skip
        [] k = "val_fr"        -> IF sel < 2 THEN emitv ELSE IF sel = 2 THEN skip ELSE errc
